@@ -7,6 +7,7 @@ import (
 	"go/ast"
 	"go/token"
 	"go/types"
+	"slices"
 	"sort"
 	"strings"
 
@@ -196,6 +197,9 @@ func (c *pathCtx) path1(v ssa.Value) string {
 			parts = append(parts, s)
 		}
 		sort.Strings(parts)
+		// a phi is a set of alternatives: the same alternative reached over
+		// two edges (a range test written as two comparisons) counts once
+		parts = slices.Compact(parts)
 		return "phi(" + strings.Join(parts, "|") + ")"
 	case *ssa.Alloc:
 		if sv := singleStore(x); sv != nil {
